@@ -28,10 +28,16 @@ func runC18(p *Prog, r *Report) {
 	ruleMinCluster(p, r)
 	r.Explain = append(r.Explain,
 		"R-UTB/syllables: every function that calls a syllable finder (a function assigning `serial<<4 | type` to GlyphInfo.syllable through a callee) iterates over the syllables on every path and flags each of them whole with unsafeToBreak(start, end), start and end being the two results of syllableIterator.next(): the four syllabic shapers reorder and substitute inside a syllable, so every boundary inside one is unsafe.",
-		"R-UTB/halfopen: unsafeToBreak(start, end) flags [start, end); no function flags such a range and stores into a field of the glyph at index `end` itself (the glyph it rewrites would be left out of the range).")
+		"R-UTB/halfopen: unsafeToBreak(start, end) flags [start, end); no function flags such a range and stores into a field of the glyph at index `end` itself (the glyph it rewrites would be left out of the range).",
+		"R-UTB/cursor: a marking call whose range starts at the cursor (Buffer.idx ± k) is not preceded, inside the same iteration of the loop that contains it, by an instruction that may move the cursor (a store to Buffer.idx or a call that may write it, P-FX): after nextGlyph or replaceGlyphs the cursor designates another glyph.")
 	utb := utbCfg{pkg: "harfbuzz", buffer: "Buffer", mark: "unsafeToBreak", iter: "syllableIterator", next: "next", info: "GlyphInfo", syllable: "syllable"}
 	ruleUTBSyllables(p, r, utb, 4)
 	ruleUTBHalfOpen(p, r, utb, 20)
+	{
+		fx := NewFX(p)
+		fx.Run()
+		ruleUTBCursor(p, r, fx, utb, "idx", 6)
+	}
 	r.Assumptions = append(r.Assumptions, "AAT paths are excluded by the property", "that the marked range is the right one, and the script shapers' joining/reordering decisions, are NOT decided (upstream deliberately marks only some cases; a rule there would not be exact)")
 	r.NotDecided = append(r.NotDecided, "that every decision depending on a neighbour marks exactly the glyphs it depended on", "fragment-shaping equality itself")
 }
